@@ -135,6 +135,10 @@ package engine
 // C15: an already cancelled context fires nothing; every observed cancellation reaches the caller
 //@   ensures[C15] precancelled: old($cancelled) && knowledge != nil && dataCtx != nil && !$addFailed ==> wrapsCtx(err, ctx) && $runExec == 0
 //@   ensures[C15,C02] ctxseen: $ctxErrSeen ==> wrapsCtx(err, ctx)
+// C15, from the property ("for every point of the run at which the context may be cancelled ... Execute returns the context's
+// error"): nil is returned only when the context was consulted, and found live, after the last thing the run did - no
+// condition evaluation, action or notification lies between the last ctx.Err() that returned nil and the return
+//@   ensures[C15] nilmeanslive: err == nil ==> $sinceNilCheck == 0
 //
 // outer loop `for {`
 //@   invariant@1[C06] counters: cycle == $runExec && cycle == $runBegin && cycle <= g.MaxCycle
